@@ -148,7 +148,10 @@ func linePayloadHelper(p *Program, f *ssa.Function, depth int) bool {
 }
 
 func isLineReader(f *ssa.Function) bool {
-	// contains a loop of one-byte reads compared with CR
+	// contains a loop of one-byte reads compared with CR, or a delimited read of a buffered reader
+	if call, _ := delimitedLineRead(f); call != nil {
+		return true
+	}
 	found := false
 	for _, l := range naturalLoops(f) {
 		for b := range l.Blocks {
